@@ -245,17 +245,78 @@ func c10Scope(e enum.Embed, k, n int, deltas []float64, level int) *drv.Scope {
 		}}
 }
 
+// c10MultiScope: several open paths in one call (a point, the line, and a shifted copy of the line): per-object
+// scratch buffers must not leak from one path's stroke into the next.
+func c10MultiScope(e enum.Embed, k, n int, deltas []float64, level int) *drv.Scope {
+	var w offWorker
+	var buf Path
+	var cfgs []strokeCfg
+	for _, d := range deltas {
+		for _, et := range []clipper.EndType{clipper.Joined, clipper.Butt, clipper.SquareET, clipper.RoundET} {
+			for _, jt := range []clipper.JoinType{clipper.Miter, clipper.Square, clipper.Bevel, clipper.Round} {
+				cfgs = append(cfgs, strokeCfg{d, jt, et})
+			}
+		}
+	}
+	const shift = 400
+	return &drv.Scope{Name: fmt.Sprintf("stroke3paths/{point, line, shifted line} line in P(%d,%d)/%s", k, n, e.Name), Level: level, Size: enum.PathCount(k, n),
+		Show: func(idx uint64) any {
+			l := enum.UnrankPath(idx, k, n, e, nil)
+			return map[string]any{"paths": pathsLit(Paths{{{X: -shift, Y: -shift}}, l, clipper.TranslatePath64(l, shift, 0)}), "configs": fmt.Sprintf("deltas %v x 4 end types x 4 join types", deltas)}
+		},
+		Run: func(c *drv.Ctx, idx uint64) {
+			buf = enum.UnrankPath(idx, k, n, e, buf)
+			line := enum.ClonePath(buf)
+			pt := Path{{X: -shift, Y: -shift}}
+			line2 := clipper.TranslatePath64(line, shift, 0)
+			nt := false
+			for _, cfg := range cfgs {
+				out := clipper.InflatePaths64(Paths{pt, line, line2}, cfg.delta, cfg.jt, cfg.et)
+				c.Exec(1)
+				c.Output(enum.HashPaths(out))
+				// the three strokes are far apart: split the result by position and hold each part against its own path
+				var parts [3]Paths
+				for _, p := range out {
+					minX, minY, _, _, _ := oracle.Bounds(Paths{p})
+					switch {
+					case minX < -shift/2 && minY < -shift/2:
+						parts[0] = append(parts[0], p)
+					case minX > shift/2:
+						parts[2] = append(parts[2], p)
+					default:
+						parts[1] = append(parts[1], p)
+					}
+				}
+				for i, in := range []Path{pt, line, line2} {
+					kind, detail, saw := c10Check(&w, in, parts[i], cfg)
+					if kind != "" {
+						c.Fail(kind, cfg.String(), "%s, path %d of 3 in one call: %s; paths %v result %v", cfg.String(), i, detail, Paths{pt, line, line2}, out)
+						break
+					}
+					if saw {
+						nt = true
+					}
+				}
+			}
+			if nt {
+				c.Nontriv()
+				c.Count("multi_path_calls_with_an_inside_requirement", 1)
+			}
+		}}
+}
+
 func init() {
 	drv.Register(&drv.Check{
 		ID:    "C10",
 		Title: "Open-path offsetting produces the stroke of half-width delta",
-		Rule: "every polyline of 1-3 (quick) / 1-4 (thorough) points over L(4) at stride 20 (duplicates, collinear runs and 180-degree reversals are members), axis-aligned and sheared, x end types {Joined, Butt, Square, Round} x 4 join types x delta in {0.5, 1, 3, 7.5, 12}; " +
+		Rule: "every polyline of 1-3 (quick) / 1-4 (thorough) points over L(4) at stride 20 (duplicates, collinear runs and 180-degree reversals are members), axis-aligned and sheared, x end types {Joined, Butt, Square, Round} x 4 join types x delta in {0.5, 1, 3, 7.5, 12}, plus three paths per call (a point, a line of P(3,3), its shifted copy: each part of the result is held against its own path); " +
 			"oracle on a pitch-1 witness lattice with exact winding of the result and float64 distances (1e-6 guard): a point whose foot on a segment is interior and whose normal distance is <= delta - tol is inside (Joined: closing segment included); a point farther than k*delta + tol from the line is outside; Square ends: the delta-tol square beyond each end is inside; Round ends: the delta-tol disc is inside; Butt ends: a point more than tol beyond an end and farther than k*delta+tol from the rest of the line is outside; a single point: square (disc for Round ends) of radius delta-tol inside, outside beyond sqrt2*delta+tol (delta+tol); result canonical. tol = 2 + arc tolerance. non-trivial = line for which some configuration has a point that must be inside",
 		Assumptions:      []string{"<= 4 points; float64 distances; witness pitch 1"},
-		RequiredCounters: []string{"lines_with_an_inside_requirement"},
+		RequiredCounters: []string{"lines_with_an_inside_requirement", "multi_path_calls_with_an_inside_requirement"},
 		Scopes: func(tier string) []*drv.Scope {
 			ds := []float64{0.5, 1, 3, 7.5, 12}
-			out := []*drv.Scope{c10Scope(enum.Eax20, 4, 1, ds, 1), c10Scope(enum.Eax20, 4, 2, ds, 2), c10Scope(enum.Esh20, 4, 2, ds, 2), c10Scope(enum.Eax20, 4, 3, []float64{1, 7.5}, 3)}
+			out := []*drv.Scope{c10Scope(enum.Eax20, 4, 1, ds, 1), c10Scope(enum.Eax20, 4, 2, ds, 2), c10Scope(enum.Esh20, 4, 2, ds, 2), c10Scope(enum.Eax20, 4, 3, []float64{1, 7.5}, 3),
+				c10MultiScope(enum.Eax20, 3, 3, []float64{7.5}, 3)}
 			if tier == "quick" {
 				return out
 			}
